@@ -167,6 +167,14 @@ class StorageReplayer:
             elif action == 'Store':
                 c, o, serial, d = args
                 st.store(self.P(o), self.tids.real(serial), self.data(o, d), '', self.t)
+            elif action == 'StoreQuota':
+                # the storage's file-size quota is reached (as if it had been opened with quota = current size)
+                c, o, serial, d = args
+                st._quota = 0
+                try:
+                    st.store(self.P(o), self.tids.real(serial), self.data(o, d), '', self.t)
+                finally:
+                    st._quota = None
             elif action == 'CheckCurrent':
                 c, o, serial = args
                 st.checkCurrentSerialInTransaction(self.P(o), self.tids.real(serial), self.t)
